@@ -1,6 +1,7 @@
 import InfluxQL.Gen.Params
 import InfluxQL.Lemmas.Bind
 import InfluxQL.Lemmas.BindSim
+import InfluxQL.Lemmas.Inline
 /-!
 # C07 — bound parameters are substituted as single tokens, never re-lexed
 
@@ -381,5 +382,115 @@ theorem unbound_examples :
 example : ParamsRel [(['p'], ⟨.STRING, ['a']⟩)] [(['p'], ⟨.STRING, ['\'', ';']⟩)] := by
   simp [ParamsRel]
 example : Bindable (.object "duration".toList (.int 90000000000 [])) = true := by decide +kernel
+
+/-! ## Placeholder = written literal, at the token level
+
+`sigTokens r` (Lemmas/Neutral.lean) is what `ScanIgnoreWhitespace` delivers from the cursor `r` on
+(kind and literal of every token that is not white space or a comment, up to the first EOF) *before*
+the substitution step of `Parser.scan`; `substSig params` is that step on kind and literal
+(`substTok_sig`). `Inlinable params name lit k v` (Lemmas/Inline.lean): `name` is a non-empty run of
+identifier runes bound to `v`; the continuation `k` cannot continue a word; the literal spelling `lit`
+followed by `k` scans as exactly one token of kind `v.tok` with literal `v.text` (neither BOUNDPARAM nor
+EOF). -/
+
+/-- **C07 (placeholder = written literal, token level).** Let the delivered runes of the template be
+`a ++ ws ++ $name ++ k` and those of the inlined text `a ++ ws ++ lit ++ k`, where `ws` is white space,
+and let the scanner reach the start of `ws` at a token boundary of the template (after `n` tokens) — or
+let nothing precede the white space (`a = []`). Then `Parser.scan` delivers the same significant tokens
+for both texts: the substituted token streams coincide. (White space before the placeholder is what
+scanner locality, `scan_loc`, needs; what follows is only required not to continue the name / the
+literal.) -/
+theorem inline_equiv_tokens (params : List (Str × BoundValue)) (name lit k : Str) (v : BoundValue)
+    (hv : Inlinable params name lit k v) (a ws : Str) (hws : ∀ c ∈ ws, isWhitespace c = true) (n : Nat)
+    (r1 r2 : Cursor) (h1 : r1.chars = a ++ (ws ++ ('$' :: (name ++ k)))) (h2 : r2.chars = a ++ (ws ++ (lit ++ k)))
+    (hb : a = [] ∨ (ws ≠ [] ∧ (scanN n r1).rest.length = (ws ++ ('$' :: (name ++ k))).length)) :
+    (sigTokens r1).map (substSig params) = (sigTokens r2).map (substSig params) :=
+  inline_tokens params name lit k v hv a ws hws n r1 r2 h1 h2 hb
+
+/-- The same for two texts (`foldCR`: the reader delivers CR and CRLF as LF; `kk` is the rest of the
+text, the sentinel that ends every input follows it). -/
+theorem inline_equiv_text (params : List (Str × BoundValue)) (name lit kk : Str) (v : BoundValue)
+    (template inlined a ws : Str) (n : Nat) (hv : Inlinable params name lit (kk ++ [eofRune]) v)
+    (hws : ∀ c ∈ ws, isWhitespace c = true)
+    (hT : foldCR template = a ++ (ws ++ ('$' :: (name ++ kk))))
+    (hI : foldCR inlined = a ++ (ws ++ (lit ++ kk)))
+    (hb : a = [] ∨ (ws ≠ [] ∧
+      (scanN n (Cursor.ofRunes template)).rest.length = (ws ++ ('$' :: (name ++ (kk ++ [eofRune])))).length)) :
+    (sigTokens (Cursor.ofRunes template)).map (substSig params) =
+      (sigTokens (Cursor.ofRunes inlined)).map (substSig params) := by
+  refine inline_tokens params name lit (kk ++ [eofRune]) v hv a ws hws n _ _ ?_ ?_ hb
+  · rw [chars_ofRunes, hT]; simp
+  · rw [chars_ofRunes, hI]; simp
+
+/-- **The literals of the four kinds are inlinable.** For a placeholder name of identifier runes and a
+continuation `k` that cannot continue a word: a string value with `QuoteString` of it (no NUL / CR), a
+non-negative integer with its decimal digits (`k` no digit, `.` or unit letter), a boolean with
+`true` / `false`, a non-negative duration with `FormatDuration` of it (`k` no letter or digit) — each with
+the (kind, text) pair `BindValue` gives. Negative integers and durations are excluded: their spelling
+is two tokens (`inline_negative_integer_is_two_tokens`), the equivalence holds for them only after
+`parseUnaryExpr` has folded the sign. -/
+theorem literal_inlinable (params : List (Str × BoundValue)) (name k : Str) (hn : ParamName name) (hk : WordEnd k) :
+    (∀ s, Expressible s → lookupParam name params = some (ParamValue.string s).bound →
+      Inlinable params name (quoteString s) k (ParamValue.string s).bound) ∧
+    (∀ i : Int, 0 ≤ i → NumEnd k → lookupParam name params = some (ParamValue.integer i).bound →
+      Inlinable params name (intDigits i) k (ParamValue.integer i).bound) ∧
+    (∀ b : Bool, lookupParam name params = some (ParamValue.boolean b).bound →
+      Inlinable params name (if b then "true".toList else "false".toList) k (ParamValue.boolean b).bound) ∧
+    (∀ d : Int, 0 ≤ d → DurEnd k → lookupParam name params = some (ParamValue.duration (formatDuration d)).bound →
+      Inlinable params name (formatDuration d) k (ParamValue.duration (formatDuration d)).bound) :=
+  ⟨fun s hex hb => inlinable_string params name k s hn hk hex hb,
+   fun i hi hnum hb => inlinable_integer params name k i hn hk hnum hi hb,
+   fun b hb => inlinable_boolean params name k b hn hk hb,
+   fun d hd hdur hb => inlinable_duration params name k d hn hk hdur hd hb⟩
+
+/-- **C07 (bridge to the parser).** With nothing pushed back and bound values of the kinds `BindValue`
+can produce (`KindsOK`: never WS, COMMENT or EOF), `Parser.ScanIgnoreWhitespace` returns exactly the head
+of the *substituted* significant-token stream — kind and literal — and leaves the cursor where the rest of
+that stream starts. Together with `inline_equiv_tokens`: the successive `ScanIgnoreWhitespace` results on
+the template and on the inlined text are the same sequence of (kind, literal) pairs. -/
+theorem scanIW_delivers_substituted (s : PState) (hn : s.n = 0) (hp : KindsOK s.params) :
+    ∃ lx s', scanIW.run s = .ok (lx, s') ∧ s'.n = 0 ∧ s'.params = s.params ∧
+      (sigTokens s.r).map (substSig s.params) =
+        if lx.tok = .EOF then [lx.sig] else lx.sig :: (sigTokens s'.r).map (substSig s.params) := by
+  unfold scanIW
+  rw [P.runBind, P.run_get]
+  exact scanIWLoop_substituted _ s hn hp (by omega)
+
+/-- Every value of `BindValue` has such a kind. -/
+theorem setParams_kindsOK (m : List (Str × GoVal)) : KindsOK (setParams m) := by
+  intro k v h
+  induction m with
+  | nil => cases h
+  | cons x rest ih =>
+    obtain ⟨k1, g⟩ := x
+    simp only [setParams, List.map_cons, lookupParam] at h ih
+    by_cases hk : k1 = k
+    · simp only [hk, if_true, Option.some.injEq] at h
+      subst h
+      have : ∀ p : ParamValue, p.tokenType ≠ .WS ∧ p.tokenType ≠ .COMMENT ∧ p.tokenType ≠ .EOF := by
+        intro p
+        cases p <;> simp only [ParamValue.tokenType] <;> try (refine ⟨?_, ?_, ?_⟩ <;> decide)
+        rename_i b
+        cases b <;> (refine ⟨?_, ?_, ?_⟩ <;> decide)
+      exact this (bindValue g)
+    · simp only [hk, if_false] at h
+      exact ih h
+
+/-- Why negative integers are excluded at this level: `BindValue(-5)` is the single token
+(INTEGER, `-5`), the text `-5` is the two tokens `-` and `5`. -/
+theorem inline_negative_integer_is_two_tokens :
+    (ParamValue.integer (-5)).bound.tok = .INTEGER ∧ (ParamValue.integer (-5)).bound.text = ['-', '5'] ∧
+    sigTokens (Cursor.ofRunes ['-', '5']) = [(.SUB, []), (.INTEGER, ['5']), (.EOF, [])] := by
+  refine ⟨?_, ?_, ?_⟩ <;> decide +kernel
+
+-- non-vacuity: `a = $v AND b` with v ↦ "x'y" against `a = 'x\'y' AND b`
+example :
+    (sigTokens (Cursor.ofRunes "a = $v AND b".toList)).map (substSig [("v".toList, (ParamValue.string "x'y".toList).bound)]) =
+    (sigTokens (Cursor.ofRunes "a = 'x\\'y' AND b".toList)).map
+      (substSig [("v".toList, (ParamValue.string "x'y".toList).bound)]) := by
+  have hv := (literal_inlinable [("v".toList, (ParamValue.string "x'y".toList).bound)] "v".toList
+    (" AND b".toList ++ [eofRune]) ⟨'v', [], rfl, by decide⟩ (WordEnd.blank _)).1 "x'y".toList (by decide) (by simp [lookupParam])
+  exact inline_equiv_text _ "v".toList (quoteString "x'y".toList) " AND b".toList _ _ _ "a =".toList [' '] 3 hv
+    (by decide) (by decide +kernel) (by decide +kernel) (Or.inr ⟨by decide, by decide +kernel⟩)
 
 end InfluxQL.C07
